@@ -204,7 +204,7 @@ pub fn run(id: &'static str, tier: Tier, seed: u64) -> i32 {
                     opts.collect_vars = c18;
                     let obs = match &tc {
                         Ok(tc) => run_loaded(tc, sigs, true, &script, &opts),
-                        Err(init) => Obs { init: init.clone(), items: vec![], calls_after: vec![], log: vec![], exhausted: false, vars: vec![], key: None, draws: vec![], signal_names: vec![] },
+                        Err(init) => Obs { init: init.clone(), items: vec![], calls_after: vec![], log: vec![], exhausted: false, vars: vec![], key: None, draws: vec![], signal_names: vec![], vars_panic: None },
                     };
                     st.steps += obs.items.len() as u64;
                     if structured && r.items.iter().any(|i| matches!(i, RefItem::Row(_))) {
